@@ -1204,6 +1204,36 @@ func funcFlowRows(repo, rel, recv, name string) []string {
 	if fn == nil {
 		die(f.Pos(), "%s not found", name)
 	}
+	return declFlowRows(fn)
+}
+
+// fileFlows emits the statement lists of EVERY function and method declared in a file
+func fileFlows(repo, leanName, rel string) {
+	f := parse(filepath.Join(repo, rel))
+	var defs []string
+	for _, d := range f.Decls {
+		fd, ok := d.(*ast.FuncDecl)
+		if !ok || fd.Body == nil {
+			continue
+		}
+		nm := fd.Name.Name
+		if fd.Recv != nil && len(fd.Recv.List) == 1 {
+			t := fd.Recv.List[0].Type
+			if st, ok := t.(*ast.StarExpr); ok {
+				t = st.X
+			}
+			if id, ok := t.(*ast.Ident); ok {
+				nm = id.Name + "." + nm
+			}
+		}
+		rows := declFlowRows(fd)
+		defs = append(defs, fmt.Sprintf("  (%s, [\n  %s])", q(nm), strings.Join(rows, ",\n  ")))
+	}
+	fmt.Fprintf(&out, "/-- %s, every function: (Type.method, every statement in source order as (kind, text, branch path)) -/\n", rel)
+	fmt.Fprintf(&out, "def %s : List (String × List (String × String × List (String × String))) := [\n%s]\n\n", leanName, strings.Join(defs, ",\n"))
+}
+
+func declFlowRows(fn *ast.FuncDecl) []string {
 	var rows []string
 	counter := 0
 	add := func(kind, detail string, path []string) {
@@ -1293,6 +1323,23 @@ func funcFlowRows(repo, rel, recv, name string) []string {
 					add("case", lbl, ext(path, fmt.Sprintf("s%d:c%d", k, j)))
 					walk(cc.Body, ext(path, fmt.Sprintf("s%d:c%d", k, j)))
 				}
+			case *ast.SelectStmt:
+				counter++
+				k := counter
+				add("select", "", ext(path, fmt.Sprintf("s%d:", k)))
+				for j, c := range t.Body.List {
+					cc := c.(*ast.CommClause)
+					lbl := "default"
+					if cc.Comm != nil {
+						lbl = srcText(cc.Comm)
+					}
+					add("case", lbl, ext(path, fmt.Sprintf("s%d:c%d", k, j)))
+					walk(cc.Body, ext(path, fmt.Sprintf("s%d:c%d", k, j)))
+				}
+			case *ast.LabeledStmt:
+				add("label", t.Label.Name, path)
+				walk([]ast.Stmt{t.Stmt}, path)
+			case *ast.EmptyStmt:
 			case *ast.TypeSwitchStmt:
 				counter++
 				k := counter
@@ -1344,7 +1391,11 @@ func funcFlowRows(repo, rel, recv, name string) []string {
 			case *ast.BlockStmt:
 				walk(t.List, path)
 			case *ast.BranchStmt:
-				add(t.Tok.String(), "", path)
+				lbl := ""
+				if t.Label != nil {
+					lbl = t.Label.Name
+				}
+				add(t.Tok.String(), lbl, path)
 			case *ast.GoStmt:
 				if fl, ok := t.Call.Fun.(*ast.FuncLit); ok {
 					counter++
@@ -1477,4 +1528,24 @@ func main() {
 	if err := os.WriteFile(filepath.Join(outdir, "Cmds.lean"), []byte(out.String()), 0o644); err != nil {
 		panic(err)
 	}
+	// every statement of every function of the files whose behaviour is modelled by hand
+	out.Reset()
+	out.WriteString("-- GENERATED by tools/gofacts: every statement of every function of the listed source files — do not edit\nnamespace Gen.Flows\n\n")
+	for _, ff := range flowFiles {
+		fileFlows(repo, ff[0], ff[1])
+	}
+	out.WriteString("end Gen.Flows\n")
+	if err := os.WriteFile(filepath.Join(outdir, "Flows.lean"), []byte(out.String()), 0o644); err != nil {
+		panic(err)
+	}
+}
+
+var flowFiles = [][2]string{
+	{"gitconfig", "git/gitconfig.go"}, {"output", "sizes/output.go"}, {"pathResolver", "sizes/path_resolver.go"},
+	{"refGroupBuilder", "internal/refopts/ref_group_builder.go"}, {"filterValue", "internal/refopts/filter_value.go"},
+	{"filterGroupValue", "internal/refopts/filter_group_value.go"}, {"showRefGrouper", "internal/refopts/show_ref_grouper.go"},
+	{"negatedBool", "negated_bool_value.go"}, {"mainFile", "git-sizer.go"}, {"human", "counts/human.go"},
+	{"objIter", "git/obj_iter.go"}, {"batchObjIter", "git/batch_obj_iter.go"}, {"refIter", "git/ref_iter.go"},
+	{"grouper", "sizes/grouper.go"}, {"explicitRoot", "sizes/explicit_root.go"}, {"objResolver", "git/obj_resolver.go"},
+	{"gitBin", "git/git_bin.go"}, {"oid", "git/oid.go"},
 }
